@@ -249,7 +249,7 @@ theorem scopedProbe_spec (H : Bytes → UInt64) (st : Store) (name : Bytes) (qty
 /-! ### association-list stores -/
 
 theorem AStore.get_set_self (s : AStore) (k : UInt64) (e : Entry) : (s.set k e).get k = some e := by
-  simp [AStore.set, AStore.get, List.find?]
+  simp [AStore.set, AStore.get]
 
 theorem find_filter_ne (s : AStore) (k k' : UInt64) (h : k' ≠ k) :
     (s.filter (·.1 != k)).find? (·.1 == k') = s.find? (·.1 == k') := by
